@@ -90,13 +90,19 @@ func (i *Interpreter) GetModuleResolver() *ModuleResolver {
 
 // Request represents an HTTP request
 type Request struct {
-	Path      string
-	Method    string
-	Params    map[string]string
-	Body      interface{}
-	Headers   map[string]string
-	AuthData  map[string]interface{} // Authenticated user data from JWT
-	SSEWriter interface{}            // SSEWriter for SSE routes (implements executor.SSEWriter)
+	Path   string
+	Method string
+	// RawQuery is the still-encoded query string when QuerySeparate is set;
+	// Path is then the percent-decoded path alone, in which a '?' is data of
+	// a segment (/docs/why%3Fnot) and not the start of the query. Without
+	// QuerySeparate the query string is whatever follows the first '?' of Path.
+	RawQuery      string
+	QuerySeparate bool
+	Params        map[string]string
+	Body          interface{}
+	Headers       map[string]string
+	AuthData      map[string]interface{} // Authenticated user data from JWT
+	SSEWriter     interface{}            // SSEWriter for SSE routes (implements executor.SSEWriter)
 }
 
 // Response represents an HTTP response
@@ -500,8 +506,17 @@ func (i *Interpreter) ExecuteRoute(route *Route, request *Request) (*Response, e
 	// Create a new environment for the route
 	routeEnv := NewChildEnvironment(i.globalEnv)
 
+	// Separate the path from the query string
+	actualPath, rawQuery := request.Path, request.RawQuery
+	if !request.QuerySeparate {
+		rawQuery = ""
+		if idx := strings.Index(actualPath, "?"); idx != -1 {
+			actualPath, rawQuery = actualPath[:idx], actualPath[idx+1:]
+		}
+	}
+
 	// Extract path parameters
-	params, err := extractPathParams(route.Path, request.Path)
+	params, err := matchPathParams(route.Path, actualPath)
 	if err != nil {
 		return nil, err
 	}
@@ -512,7 +527,7 @@ func (i *Interpreter) ExecuteRoute(route *Route, request *Request) (*Response, e
 	}
 
 	// Extract and process query parameters with type conversion
-	rawQueryParams, err := ExtractRawQueryParams(request.Path)
+	rawQueryParams, err := parseRawQuery(rawQuery)
 	if err != nil {
 		return &Response{
 			StatusCode: 400,
